@@ -81,6 +81,9 @@ func init() {
 				}
 				cells = append(cells, cp(conf, "impostor", "1"))
 				cells = append(cells, cp(conf, "impostor", "nocert"))
+				if conf["mux"] != "1" {
+					cells = append(cells, cp(conf, "impostor", "sibling"))
+				}
 				cells = append(cells, cp(conf, "impostor", "shortcert"))
 			}
 			if tier == "selftest" {
@@ -473,6 +476,71 @@ func runC12Impostor(r *h.Run, c h.Conf) {
 	certA, _ := h.SelfSignedPEM()
 	certB, keyB := h.SelfSignedPEM()
 	sh := plugins.NewShared("impostor")
+	if mode == "sibling" {
+		// the impostor announces a certificate of its own and the ADDRESS of
+		// another, genuine AutoMTLS plugin this host is already talking to
+		// (through another client): nothing learnt in that other client's
+		// session may make this client accept that plugin's certificate
+		cB := c
+		cB.Name, cB.Mux = "sibling", false
+		shB := plugins.NewShared("sibling")
+		cB.Sh = shB
+		r.InstallPlugin(&cB)
+		clB := r.NewClient(cB)
+		ob := r.DoNoHang("Sibling.use", 120*time.Second, ctx, func() (any, error) {
+			cp, err := clB.Client()
+			if err != nil {
+				return nil, err
+			}
+			raw, err := cp.Dispense(h.PluginName)
+			if err != nil {
+				return nil, err
+			}
+			return raw.(plugins.Cmd).Do("tag", "")
+		})
+		addrB, ok := clAddr(clB)
+		if ob.Err != nil || ob.Hung || !ok {
+			r.Violate("setup", "sibling plugin "+ctx, fmt.Sprint(ob.Err))
+			return
+		}
+		servedB := shB.ServedCount()
+		r.W.RegisterProgram("/bin/impostor", []byte("#!impostor"), func() {
+			proto := "netrpc"
+			if c.Proto == "grpc" {
+				proto = "grpc"
+			}
+			fmt.Fprintf(k.Cur().Fd1, "1|1|unix|%s|%s|%s\n", addrB, proto, h.PEMToRawB64(certA))
+			select {}
+		})
+		c.Path, c.Name, c.Mux = "/bin/impostor", "plugin", false
+		cl := r.NewClient(c)
+		if o := r.DoNoHang("Start", 90*time.Second, ctx, func() (any, error) { return cl.Start() }); o.Err != nil || o.Hung {
+			r.W.Probe("impostor.rejected-at-start")
+		} else {
+			u := r.DoNoHang("FirstUse", 120*time.Second, ctx, func() (any, error) {
+				cp, err := cl.Client()
+				if err != nil {
+					return nil, err
+				}
+				raw, err := cp.Dispense(h.PluginName)
+				if err != nil {
+					return nil, err
+				}
+				return raw.(plugins.Cmd).Do("tag", "")
+			})
+			if !u.Hung && u.Err == nil {
+				r.Violate("impostor-accepted", ctx, fmt.Sprintf("the host's second client talked to a plugin whose certificate was never announced to it: answer %v", u.Val))
+			} else {
+				r.W.Probe("impostor.rejected-at-first-use")
+			}
+			if shB.ServedCount() > servedB {
+				r.Violate("impostor-accepted", ctx+" served", "the sibling plugin served a request that came through the other client")
+			}
+		}
+		r.DoNoHang("Kill", 150*time.Second, ctx, func() (any, error) { cl.Kill(); return nil, nil })
+		r.DoNoHang("Kill(sibling)", 150*time.Second, ctx, func() (any, error) { clB.Kill(); return nil, nil })
+		return
+	}
 	r.W.RegisterProgram("/bin/impostor", []byte("#!impostor"), func() {
 		// a real Serve with a static TLS provider (certificate B), behind a
 		// stdout filter that swaps the announced certificate for A is not
